@@ -421,6 +421,33 @@ fn run_c15(cfg: &RunCfg, stats: &mut Stats) -> Outcome {
         }
         stats.bump("text/golden_inputs");
     }
+    // every Unicode scalar value in a cell (quick; below U+3000 also as side letter and as move-number
+    // digit, thorough: everywhere)
+    let thorough = cfg.thorough;
+    let results: Vec<(Stats, Option<(Fail, String)>)> = std::thread::scope(|sc| {
+        (0..SHARDS)
+            .map(|shard| {
+                sc.spawn(move || {
+                    install_hook();
+                    let mut st = Stats::default();
+                    let r = c15_all_chars(shard, SHARDS, thorough, &mut st).err();
+                    (st, r)
+                })
+            })
+            .collect::<Vec<_>>()
+            .into_iter()
+            .map(|h| h.join().expect("shard"))
+            .collect()
+    });
+    for (s, r) in results {
+        stats.add("text/diagrams_with_every_unicode_scalar", s.evaluations);
+        let mut s = s;
+        s.counters.clear();
+        stats.merge(s);
+        if let Some((f, text)) = r {
+            return Outcome::Violation(Violation { replay: text_replay("C15", "text", &f, &text, cfg.seed, 0), fail: f });
+        }
+    }
     let cases = if cfg.thorough { 600_000 } else { 60_000 };
     let seed = cfg.seed;
     let mut s = Stats::default();
@@ -513,9 +540,34 @@ fn run_c16(cfg: &RunCfg, stats: &mut Stats, exhaustive: &mut bool, extra: &mut V
         }
     }
     stats.add("strings_enumerated_exhaustively", enumerated);
+    // every Unicode scalar value alone and at each position of valid templates
+    let results: Vec<(Stats, Option<(Fail, String)>)> = std::thread::scope(|sc| {
+        (0..SHARDS)
+            .map(|shard| {
+                sc.spawn(move || {
+                    install_hook();
+                    let mut st = Stats::default();
+                    let r = c16_all_chars(shard, SHARDS, &mut st).err();
+                    (st, r)
+                })
+            })
+            .collect::<Vec<_>>()
+            .into_iter()
+            .map(|h| h.join().expect("shard"))
+            .collect()
+    });
+    let mut all_chars = 0u64;
+    for (s, r) in results {
+        all_chars += s.evaluations;
+        stats.merge(s);
+        if let Some((f, text)) = r {
+            return Outcome::Violation(Violation { replay: text_replay("C16", "string", &f, &text, cfg.seed, 0), fail: f });
+        }
+    }
+    stats.add("strings_from_all_unicode_scalars_in_templates", all_chars);
     stats.sample(12, || json!({"exhaustive": "all strings of length <= 4 over the alphabet", "alphabet": ALPHABET.iter().map(|c| c.to_string()).collect::<Vec<_>>()}));
     *exhaustive = true;
-    *extra = json!({"exhaustive_part": "263 actions, 64 squares, 6 pieces, 4 directions, 475255 strings (length <= 4 over 26 symbols)", "sampled_part": "longer strings, arbitrary Unicode, random u64 bitboards"});
+    *extra = json!({"exhaustive_part": "263 actions, 64 squares, 6 pieces, 4 directions, 475255 strings (length <= 4 over 26 symbols), every Unicode scalar value alone and at each position of the templates a1n h8w d4s a1 h8 e", "sampled_part": "longer strings, arbitrary Unicode, random u64 bitboards"});
     // sampled: longer strings
     let cases = if cfg.thorough { 1_500_000 } else { 100_000 };
     let seed = cfg.seed;
